@@ -89,14 +89,33 @@ def pointwise_constants(tier):
         "ForceLens": "{2, 3, 4}",
         "ForceMeans": "{<<0, 1>>, <<2, 1>>, <<-1, 2>>}",
         "ForceVars": "{<<1, 1>>, <<4, 1>>, <<2, 1>>, <<1, 4>>}",
+        # samples with NaN and (for some normalizers) out-of-range entries at different places
+        "LlfData": "{" + ", ".join("<<" + ", ".join(_rat(q) for q in d) + ">>" for d in LLF_DATA) + "}",
+        "BoundMeans": "{<<0, 1>>, <<3, 2>>}",
+        "BoundVarPool": "{<<1, 1>>, <<2, 1>>, <<8, 1>>, <<1, 2>>, <<15, 1>>, <<3, 5>>, <<12, 5>>}",
+        "BoundAs": "{<<-1, 1>>, <<-7, 2>>}",
+        "BoundBs": "{<<7, 1>>, <<9, 2>>}",
     }
     return c
 
 
+NAN = (0, 0)
+LLF_DATA = [
+    [(1, 2), (1, 1), (2, 1), (4, 1), (1, 4)],
+    [(1, 2), (1, 1), NAN, (2, 1), (4, 1), (1, 4)],
+    [NAN, (1, 2), (1, 1), (2, 1), NAN, (4, 1), (1, 4), NAN],
+    [(-1, 1), (1, 2), (2, 1), NAN, NAN, (3, 2), (4, 1)],
+    [(-2, 1), (-1, 2), (0, 1), (1, 1), NAN, (5, 2)],
+    [NAN, (3, 4), (3, 2), (-4, 1), (5, 2), (1, 4), NAN],
+    [(0, 1), (1, 1), (3, 1), (1, 2), (-1, 2), (2, 1)],
+]
+
 PW_SECTIONS = {
     "Discrete": ["OnlyGivenValues", "ClosedOnTheRight", "ClassesMonotone"],
     "Wrap": ["WrapOnlyGivenValues"],
-    "NormExact": ["ExactStrictlyIncreasing", "ExactRoundTrip"],
+    "NormExact": ["ExactStrictlyIncreasing", "ExactRoundTrip", "ExactDerivativePositive"],
+    "Llf": ["LlfCountsValidOnly"],
+    "Bounds": ["BoundsHonoured"],
     "Range": ["ImageIsValid"],
     "Fix": ["FixInsideRanges"],
     "Force": ["ForceMomentsExact"],
@@ -373,6 +392,15 @@ def replay_exact(col, states, pid):
         elif len(out) > 1 and not np.all(np.diff(out) > 0):
             col.violation("monotone:%s:lmbda=%d" % (name, k),
                           "%r.normalize is not strictly increasing on %s: %s" % (nrm, xs.tolist(), out.tolist()), rp)
+        dys = np.array([_f(q) for q in c["dys"]])
+        der = nrm.derivative(xs.copy())
+        ok = _relclose(der, dys, 1e-12)
+        col.evals += len(xs)
+        if not ok.all():
+            i = int(np.flatnonzero(~ok)[0])
+            col.violation("exact:%s:lmbda=%d:derivative" % (name, k),
+                          "%r.derivative(%r) = %r, the derivative of the documented formula is exactly %s/%s"
+                          % (nrm, float(xs[i]), float(der[i]), c["dys"][i][0], c["dys"][i][1]), rp)
         back = nrm.denormalize(ys.copy())
         ok = _relclose(back, xs, 1e-12)
         if not ok.all():
@@ -404,6 +432,118 @@ def replay_fix(col, states):
             col.violation("exact:%s:%s:reference-point:denormalize" % (c["norm"], lamclass(c["norm"], lam)),
                           "%r.denormalize(0.0) = %r, the documented inverse gives exactly %r" % (nrm, b, x), rp)
         col.nontrivial.add(("fix", c["norm"], tuple(c["lam"]), tuple(c["shift"])))
+
+
+LLF_CONST = -0.5 * (math.log(2.0 * math.pi) + 1.0)   # documented additive constant per valid entry
+
+
+def replay_llf(col, states):
+    """log-likelihood counts the valid entries only (relations between implementation outputs,
+    the valid entries and their number are TLC's)"""
+    for st in states:
+        c = st["c"]
+        lam, sh = _f(c["lam"]), _f(c["shift"])
+        nrm = make_norm(c["norm"], lam, sh)
+        data = np.array([_f(q) for q in c["data"]])
+        valid = np.array([_f(q) for q in c["valid"]])
+        n = c["nValid"]
+        lc = lamclass(c["norm"], lam)
+        rp = {"section": "llf", "case": c}
+        col.evals += 6
+        col.traces += 1
+        with warnings.catch_warnings():
+            warnings.simplefilter("ignore")
+            l_d, l_v = float(nrm.loglikelihood(data.copy())), float(nrm.loglikelihood(valid.copy()))
+            k_d, k_v = float(nrm.kernel_loglikelihood(data.copy())), float(nrm.kernel_loglikelihood(valid.copy()))
+            lik = float(nrm.likelihood(data.copy()))
+            y = np.asarray(nrm.normalize(valid.copy()), dtype=float).tolist()
+            dy = np.asarray(nrm.derivative(valid.copy()), dtype=float).tolist()
+        tol = lambda ref: 1e-10 * max(1.0, abs(ref))  # noqa: E731
+        dirty = len(data) != n
+        what = "%r, data %s (entries that count: %s)" % (nrm, data.tolist(), valid.tolist())
+        if abs(l_d - l_v) > tol(l_v):
+            col.violation("loglikelihood:%s:%s:invalid-entries-count" % (c["norm"], lc),
+                          "%s: loglikelihood(data) = %r but loglikelihood(valid entries) = %r" % (what, l_d, l_v), rp)
+        if abs(k_d - k_v) > tol(k_v):
+            col.violation("kernel_loglikelihood:%s:%s:invalid-entries-count" % (c["norm"], lc),
+                          "%s: kernel_loglikelihood(data) = %r but on the valid entries %r" % (what, k_d, k_v), rp)
+        if abs(lik - math.exp(l_d)) > 1e-12 * max(abs(lik), math.exp(l_d)):
+            col.violation("likelihood:%s:%s:exp" % (c["norm"], lc),
+                          "%s: likelihood = %r, exp(loglikelihood) = %r" % (what, lik, math.exp(l_d)), rp)
+        if abs((l_d - k_d) - n * LLF_CONST) > 1e-9 * max(1.0, abs(n * LLF_CONST)):
+            col.violation("loglikelihood:%s:%s:constant" % (c["norm"], lc),
+                          "%s: loglikelihood - kernel_loglikelihood = %r, documented -n/2 (log(2 pi) + 1) = %r for the "
+                          "n = %d valid entries" % (what, l_d - k_d, n * LLF_CONST, n), rp)
+        # the maximum-likelihood definition, from the implementation's own normalize / derivative
+        mu = math.fsum(y) / n
+        var = math.fsum((v - mu) ** 2 for v in y) / n
+        ml = n * LLF_CONST - 0.5 * n * math.log(var) + math.fsum(math.log(d) for d in dy)
+        if abs(l_d - ml) > 1e-9 * max(1.0, abs(ml)):
+            col.violation("loglikelihood:%s:%s:ml-definition" % (c["norm"], lc),
+                          "%s: loglikelihood = %r, -n/2 (log(2 pi) + 1) - n/2 log(var(y)) + sum(log(dy/dx)) = %r with the "
+                          "object's own normalize / derivative" % (what, l_d, ml), rp)
+        col.nontrivial.add(("llf", c["norm"], tuple(c["lam"]), tuple(c["shift"]), tuple(map(tuple, c["data"])), dirty))
+        if dirty and c["norm"] == "BoxCox" and lam == 0.5:
+            col.sample({"section": "llf", "normalizer": repr(nrm), "data": [repr(v) for v in data.tolist()],
+                        "classes": c["cls"], "valid_entries": valid.tolist()}, cap=1)
+
+
+def replay_bounds(col, states):
+    """uniform / arcsine / U-quadratic: a given bound is the bound, a missing one takes its default;
+    the normal quantiles 0, 1/2, 1 map to lo, (lo + hi)/2, hi"""
+    import gstools as gs
+    import gstools.transform as gt
+    from gstools.field import Field
+
+    for st in states:
+        c = st["c"]
+        m, v = _f(c["mean"]), _f(c["var"])
+        lo, hi, mid = _f(c["lo"]), _f(c["hi"]), _f(c["mid"])
+        sd = math.sqrt(v)
+        method = c["method"]
+        names = ("low", "high") if method == "uniform" else ("a", "b")
+        kw = {}
+        if c["aGiven"]:
+            kw[names[0]] = _f(c["a"])
+        if c["bGiven"]:
+            kw[names[1]] = _f(c["b"])
+        full = {names[0]: lo, names[1]: hi}            # every bound passed explicitly
+        inner = m + sd * np.array([-2.0, -1.0, -0.5, -0.25, 0.25, 0.5, 1.0, 2.0])
+        x = np.concatenate(([m - 40.0 * sd, m, m + 40.0 * sd], inner))
+        fn = {"uniform": gt.array_to_uniform, "arcsin": gt.array_to_arcsin, "uquad": gt.array_to_uquad}[method]
+        fld = Field(gs.Gaussian(dim=1, var=0.75 * v, nugget=0.25 * v, len_scale=1.0), mean=m)
+        fld([np.arange(len(x), dtype=float)], field=x.copy(), post_process=False)
+        rp = {"section": "bounds", "case": c}
+        sig = "bounds:%s:%s" % (method, "+".join(n for n, g in zip(names, (c["aGiven"], c["bGiven"])) if g) or "defaults")
+        scale = max(1.0, abs(lo), abs(hi))
+        for entry in ("array", "Field.transform"):
+            col.evals += len(x)
+            if entry == "array":
+                out = np.asarray(fn(x.copy(), mean=m, var=v, **kw), dtype=float)
+                ref = np.asarray(fn(x.copy(), mean=m, var=v, **full), dtype=float)
+            else:
+                out = np.asarray(fld.transform("normal_to_" + method, store=False, **kw), dtype=float)
+                ref = np.asarray(fld.transform("normal_to_" + method, store=False, **full), dtype=float)
+            call = "%s normal_to_%s(%s), mean=%r, var=%r" % (entry, method, ", ".join("%s=%r" % i for i in kw.items()), m, v)
+            exact = [(0, lo, "the lowest input (quantile 0)"), (2, hi, "the highest input (quantile 1)")]
+            if method != "uquad":   # the U-quadratic quantile function has infinite slope at 1/2
+                exact.append((1, mid, "the mean (quantile 1/2)"))
+            for i, e, what in exact:
+                if abs(out[i] - e) > 1e-12 * scale:
+                    col.violation(sig + ":quantile-image", "%s maps %s to %r, documented bounds [%r, %r] give %r"
+                                  % (call, what, float(out[i]), lo, hi, e), rp)
+            if out.min() < lo - 1e-12 * scale or out.max() > hi + 1e-12 * scale:
+                col.violation(sig + ":range", "%s: output range [%r, %r] leaves [%r, %r]"
+                              % (call, float(out.min()), float(out.max()), lo, hi), rp)
+            if not np.allclose(out, ref, rtol=1e-12, atol=1e-12 * scale):
+                col.violation(sig + ":defaults-relation", "%s differs from the call with both bounds passed explicitly (%s)"
+                              % (call, full), rp)
+        col.traces += 1
+        col.nontrivial.add(("bounds", method, tuple(c["mean"]), tuple(c["var"]), c["aGiven"], c["bGiven"],
+                            tuple(c["a"]), tuple(c["b"])))
+        if method == "arcsin" and c["aGiven"] and not c["bGiven"]:
+            col.sample({"section": "bounds", "method": method, "mean": m, "var": v, "given": kw,
+                        "documented_bounds": [lo, hi]}, cap=1)
 
 
 def replay_range(col, states, tier):
@@ -588,12 +728,12 @@ def pipeline_module(name, kind, maxcalls, maxtrans, vtypes=("scalar",), meshes=(
     }
     mod = "---- MODULE %s ----\nEXTENDS Pipeline\n" % name + "".join("Mc%s == %s\n" % kv for kv in d.items()) + "====\n"
     cfg = "CONSTANTS\n" + "".join(" %s <- Mc%s\n" % (k, k) for k in d) + "INIT Init\nNEXT Next\n" + \
-        "".join("INVARIANT %s\n" % i for i in PL_INVARIANTS)
+        "".join("INVARIANT %s\n" % i for i in PL_INVARIANTS) + "PROPERTY EarlierFieldsUntouched\n"
     return mod, cfg
 
 
 def pipeline_plan(pid, tier):
-    """list of (tag, kind, module kwargs, history length)"""
+    """list of (tag, kind, module kwargs, history length, phase)"""
     thorough = tier == "thorough"
     plan = []
     both = ("unstructured", "structured")
@@ -624,10 +764,23 @@ def pipeline_plan(pid, tier):
                     plan.append(("%s_t2_%s" % (kind, mean), kind,
                                  dict(maxcalls=1, maxtrans=2, means=(mean,), m2=(("lognormal", "-"), ("binary", "default"))), 3))
         else:
-            plan.append(("SRF_t2", "SRF", dict(maxcalls=1, maxtrans=2, means=("const",), norms=(True,),
+            plan.append(("SRF_t2", "SRF", dict(maxcalls=1, maxtrans=2, means=("const",), norms=(True, False),
                                                trends=("none", "call"), m2=(("lognormal", "-"),)), 3))
             plan.append(("Field_t2", "Field", dict(maxcalls=1, maxtrans=2, means=("const",), norms=(False,),
                                                    trends=("none",), m2=(("binary", "default"),)), 3))
+    phase = "calls" if pid == "C18" else "transforms"
+    plan = [p + (phase,) for p in plan]
+    if pid == "C18":
+        # transform(process=True) = PreProcess, function, PostProcess: pre-processing must invert
+        # post-processing on real objects and leave the stored source alone (two consecutive
+        # processed transformations of the same source)
+        two = (("identity", "-"), ("function", "-"))
+        for kind in ("Field", "SRF"):
+            plan.append(("%s_tr" % kind, kind,
+                         dict(maxcalls=1, maxtrans=2, means=("const", "call") if not thorough else ("none", "const", "call"),
+                              trends=("none", "call") if not thorough else ("none", "const", "call"),
+                              meshes=both if thorough else (("unstructured",) if kind == "Field" else ("structured",)),
+                              m1=two, m2=two), 3, "transforms"))
     return plan
 
 
@@ -925,7 +1078,7 @@ def replay_history(col, kind, cfg, hist, flavour, phase, inst_cache, verbose=Fal
         inst = inst_cache[key] = Instance(kind, cfg, flavour, phase)
     gs = inst.gs
     obj = inst.make() if kind != "Vario" else None
-    mine = {}      # the driver's copies of every stored field (protects against in-place changes, C20)
+    mine = {}      # snapshots of every stored field, taken when the field was bound
     unspec = {}    # name -> positions whose value is unspecified (a discrete transformation of NaN)
     steps = 0
     ctx = "%s[%s,%s,%s,%s%s]" % (kind, cfgclass(cfg), cfg["vtype"], cfg["mesh"], flavour if cfg["norm"] else "no-normalizer",
@@ -987,6 +1140,21 @@ def replay_history(col, kind, cfg, hist, flavour, phase, inst_cache, verbose=Fal
             if not _cmp(stored, ret, 1e-15):
                 col.violation(sig(rec, "stored-value"), "%s: field stored as %r after %s differs from the returned one"
                               % (ctx, rec["name"], _describe(hist[:i + 1])), rp(i))
+
+    def check_untouched(i, rec):
+        """StoreDiscipline on the real arrays: every stored field the call was not asked to (re)bind
+        (rec["bound"], dictated by the spec) is exactly what it was when it was bound - so it still is
+        its documented term and a later transformation of it starts from the same values"""
+        for n in obj.field_names:
+            if n in rec["bound"] or n not in mine:
+                mine[n] = np.array(obj[n], dtype=float, copy=True)
+            elif not np.array_equal(np.asarray(obj[n], dtype=float), mine[n], equal_nan=True):
+                col.violation(sig(rec, "earlier-field-changed"),
+                              "%s: %s changed the stored field %r although it was not asked to replace it: it was %s "
+                              "(its documented value), now it is %s"
+                              % (ctx, _describe(hist[:i + 1]), n, mine[n].tolist(), np.asarray(obj[n]).tolist()), rp(i))
+                return False
+        return True
 
     with warnings.catch_warnings():
         warnings.simplefilter("ignore")
@@ -1059,15 +1227,11 @@ def replay_history(col, kind, cfg, hist, flavour, phase, inst_cache, verbose=Fal
                         for nm, b in (("raw_field", "gen"), ("raw_krige", "kraw")):
                             if nm in obj.field_names and not _cmp(obj[nm], inst.bases[b], 1e-10):
                                 col.violation(sig(rec, nm), "%s: stored %s is not the unprocessed field" % (ctx, nm), rp(i))
-                    for n in obj.field_names:
-                        mine[n] = np.array(obj[n], copy=True)
+                    if not check_untouched(i, rec):
+                        break
                     continue
                 # transformation
                 src, stv = rec["src"], _stv(rec["st"])
-                if src in mine and src in obj.field_names and not np.array_equal(obj[src], mine[src], equal_nan=True):
-                    # an earlier transformation changed this field in place (C20): restore the value that was returned
-                    col.note("restored-a-field-changed-in-place-by-an-earlier-transformation(C20)")
-                    obj.post_field(mine[src].copy(), name=src, process=False)
                 name, kw = KW[rec["method"] if rec["method"].split(":")[0] in ("binary", "discrete")
                               else rec["method"].split(":")[0]]
                 h = zlib.crc32(repr((i, rec["method"], rec["st"], cfgclass(cfg))).encode())
@@ -1146,14 +1310,8 @@ def replay_history(col, kind, cfg, hist, flavour, phase, inst_cache, verbose=Fal
                         elif fin.mean() >= 0.5:
                             col.nontrivial.add(hkey(i))
                 check_store(i, rec, lambda: obj.field_names, lambda n: obj[n], ret)
-                # protect later steps against in-place changes of the source (C20)
-                for n in obj.field_names:
-                    if n in mine and not (rec["status"] == "ok" and rec["save"] and n == rec["name"]):
-                        if not np.array_equal(obj[n], mine[n], equal_nan=True):
-                            col.note("restored-a-field-changed-in-place-by-an-earlier-transformation(C20)")
-                            obj.post_field(mine[n].copy(), name=n, process=False)
-                    else:
-                        mine[n] = np.array(obj[n], copy=True)
+                if not check_untouched(i, rec):
+                    break
             except Exception as e:  # noqa: BLE001
                 if isinstance(e, (MemoryError, KeyboardInterrupt)):
                     raise
@@ -1240,8 +1398,8 @@ def _pipeline_worker(job):
 # ---------------------------------------------------------------------------
 
 ASSUME_C18 = [
-    "NOT covered: strict monotonicity, derivative = true derivative, log-likelihood and maximum-likelihood fit as analytic "
-    "statements (only: strict increase on the exact lattice, and an auxiliary finite-difference comparison that never decides)",
+    "NOT covered: strict monotonicity and derivative = true derivative as analytic statements (covered: strict increase and the "
+    "exact derivative of the rational pairs on the lattice; an auxiliary finite-difference comparison that never decides)",
     "normalizer values are the float images of TLC's rationals; exact pairs are compared at 1e-12, relations at 1e-9",
     "YeoJohnson / Modulus with lmbda < 0 document no denormalize range although the image of normalize is bounded: such "
     "inputs are classified Open (any result accepted, counted under open_or_degenerate_cases)",
@@ -1250,7 +1408,10 @@ ASSUME_C18 = [
     "TLC computed; without a normalizer mean and trend commute, so their order is then unobservable",
     "raw fields (SRF, kriging, conditioned) are taken from an independent object of the same configuration called with "
     "post_process=False; the conditioning-point view relies on exact interpolation (nugget 0), compared at 1e-7",
-    "in-place modification of caller arrays / stored fields (C20) is neutralised by passing copies",
+    "after every call every stored field the call was not asked to (re)bind is compared byte-wise with the snapshot taken "
+    "when it was bound (it was checked against its documented term then); caller arrays are handed over as copies",
+    "log-likelihood: relations between implementation outputs (data vs its valid entries, likelihood = exp, documented "
+    "constant for TLC's valid count, ML definition from the object's own normalize / derivative); the ML FIT is not covered",
 ]
 ASSUME_C19 = [
     "NOT covered: the distribution laws (log-normal, uniform, arcsine, U-quadratic, Zinn-Harvey marginal) - statements about "
@@ -1264,7 +1425,9 @@ ASSUME_C19 = [
     "such calls are Open (history ends there, outcome counted under open_or_degenerate_cases)",
     "transformation wrappers are checked against gstools.transform.array_* composed by the driver in the order and with the "
     "mean argument TLC computed; the array functions themselves are pinned exactly only for discrete/binary/force_moments/boxcox",
-    "in-place modification of the source field by transform(process=True) (C20) is neutralised by restoring the returned copy",
+    "after every transformation every stored field it was not asked to (re)bind is compared byte-wise with its snapshot",
+    "target bounds: the images of the quantiles 0, 1/2 (not U-quadratic: infinite slope), 1, the output range and the relation "
+    "to the call with both bounds explicit are checked for every combination of given / default bounds; not the law in between",
 ]
 
 
@@ -1288,6 +1451,10 @@ def _do_replay(pid, path):
         replay_force(col, [{"c": rp["case"]}])
     elif sec == "fix":
         replay_fix(col, [{"c": rp["case"]}])
+    elif sec == "llf":
+        replay_llf(col, [{"c": rp["case"]}])
+    elif sec == "bounds":
+        replay_bounds(col, [{"c": rp["case"]}])
     elif sec == "range":
         print(" re-run the check; the replay object lists the values and classes:", rp)
     for k, w, _r in col.violations:
@@ -1303,13 +1470,13 @@ def run(pid, tier, seed, replay=None):
     rep = Report(pid, tier, seed)
     rep.assumptions += ASSUME_C18 if pid == "C18" else ASSUME_C19
     thorough = tier == "thorough"
-    phase = "calls" if pid == "C18" else "transforms"
-    sections = ["NormExact", "Range", "Fix"] if pid == "C18" else ["Discrete", "Wrap", "Force", "NormExact", "Range"]
+    sections = ["NormExact", "Range", "Fix", "Llf"] if pid == "C18" else \
+        ["Discrete", "Wrap", "Force", "Bounds", "NormExact", "Range"]
     t0 = time.time()
     with tlc.Scratch() as sc:
         jobs = pointwise_jobs(sc, tier, sections)
         plan = pipeline_plan(pid, tier)
-        for tag, kind, kw, _length in plan:
+        for tag, kind, kw, _length, _phase in plan:
             mod, cfg = pipeline_module("MC_PL_" + tag, kind, **kw)
             sc.write("MC_PL_%s.tla" % tag, mod)
             jobs.append((("pl", tag), sc, "MC_PL_" + tag, cfg,
@@ -1332,11 +1499,13 @@ def run(pid, tier, seed, replay=None):
             replay_exact(col, dumps["NormExact"], pid)
             replay_range(col, dumps["Range"], tier)
             replay_fix(col, dumps["Fix"])
+            replay_llf(col, dumps["Llf"])
             aux_finite_difference(col)
         else:
             replay_discrete(col, dumps["Discrete"], tier)
             replay_wrap(col, dumps["Wrap"], tier)
             replay_force(col, dumps["Force"])
+            replay_bounds(col, dumps["Bounds"])
             replay_exact(col, dumps["NormExact"], pid)
             relation_boxcox(col, dumps["Range"])
         col.merge_into(rep)
@@ -1346,7 +1515,7 @@ def run(pid, tier, seed, replay=None):
         import multiprocessing as mp
 
         work = []
-        for tag, kind, _kw, length in plan:
+        for tag, kind, _kw, length, phase in plan:
             cap = None
             if not thorough and pid == "C19":
                 cap = 2500
